@@ -175,6 +175,17 @@ fn noise_params(tick: u32, p_limit: u16, p_market: u16, p_cancel: u16, trade_vol
     NoiseAgentParams { tick_size: tick, p_limit: prob(p_limit), p_market: prob(p_market), p_cancel: prob(p_cancel), trade_vol, price_dist_mu: mu_milli as f64 / 1000.0, price_dist_sigma: sigma_milli as f64 / 1000.0 }
 }
 
+/// demand / scale in thousandths; bit 31 set = negative (a finite parameter like any other: the documented
+/// probability takes the absolute value, the side follows the sign of M alone)
+pub fn signed_milli(x: u32) -> f64 {
+    let v = (x & 0x7fff_ffff) as f64 / 1000.0;
+    if x >> 31 == 1 {
+        -v
+    } else {
+        v
+    }
+}
+
 #[allow(clippy::too_many_arguments)]
 pub fn momentum_params(tick: u32, p_cancel: u16, trade_vol: u32, decay_milli: u32, demand_milli: u32, scale_milli: u32, ratio_milli: u32, mu_milli: i32, sigma_milli: u32) -> MomentumParams {
     MomentumParams {
@@ -182,8 +193,8 @@ pub fn momentum_params(tick: u32, p_cancel: u16, trade_vol: u32, decay_milli: u3
         p_cancel: prob(p_cancel),
         trade_vol,
         decay: decay_milli as f64 / 1000.0,
-        demand: demand_milli as f64 / 1000.0,
-        scale: scale_milli as f64 / 1000.0,
+        demand: signed_milli(demand_milli),
+        scale: signed_milli(scale_milli),
         order_ratio: ratio_milli as f64 / 1000.0,
         price_dist_mu: mu_milli as f64 / 1000.0,
         price_dist_sigma: sigma_milli as f64 / 1000.0,
@@ -397,7 +408,7 @@ fn run_agent_inner(c: &AgentCase, feat: &mut AgentFeatures) -> Result<(), Failur
                 // the documented signal, recomputed from the mid-prices the agent saw (same recurrence as C17);
                 // only its deterministic corners are asserted here: M = 0 => nothing, M > 0 => no sells,
                 // M < 0 => no buys, probability >= 1 => exactly one order of that kind per trader
-                let (decay, demand, scale, ratio) = (*decay_milli as f64 / 1000.0, *demand_milli as f64 / 1000.0, *scale_milli as f64 / 1000.0, *ratio_milli as f64 / 1000.0);
+                let (decay, demand, scale, ratio) = (*decay_milli as f64 / 1000.0, signed_milli(*demand_milli), signed_milli(*scale_milli), *ratio_milli as f64 / 1000.0);
                 let mk = match mom_last {
                     Some(p) => mom_m * (1.0 - decay) + decay * (mid_seen - p),
                     None => 0.0,
@@ -601,11 +612,13 @@ fn spec_strategy(kind: u8) -> BoxedStrategy<AgentSpec> {
     let n = prop_oneof![2 => Just(0u16), 12 => 1u16..=8, 4 => 9u16..=50, 1 => prop_oneof![Just(63u16), Just(64), Just(65), Just(127), Just(128), Just(129), Just(255), Just(256), Just(257), 51u16..=300]];
     let mu = prop_oneof![3 => -2000i32..=6000, 1 => Just(0i32)];
     let sigma = prop_oneof![3 => 0u32..=12_000, 2 => Just(10_000u32), 1 => Just(1_000u32), 1 => Just(0u32)];
-    let vol = prop_oneof![3 => 1u32..=100, 1 => 1u32..=10_000];
+    // (a configured volume of 0 is inside the property's domain: "non-empty ranges" is its only demand on volumes)
+    let vol = prop_oneof![12 => 1u32..=100, 4 => 1u32..=10_000, 1 => Just(0u32)];
     match kind {
-        0 => (n, 1u32..2000, 1u32..200, 1u32..500, 1u32..500, prob_code()).prop_map(|(n, tick_lo, tick_span, vol_lo, vol_span, activity)| AgentSpec::Random { n, tick_lo, tick_span, vol_lo, vol_span, activity }).boxed(),
+        0 => (n, 1u32..2000, 1u32..200, prop_oneof![7 => 1u32..500, 1 => Just(0u32)], prop_oneof![3 => 1u32..500, 1 => 1u32..4], prob_code()).prop_map(|(n, tick_lo, tick_span, vol_lo, vol_span, activity)| AgentSpec::Random { n, tick_lo, tick_span, vol_lo, vol_span, activity }).boxed(),
         1 => (n, prob_code(), prob_code(), prob_code(), vol, mu, sigma).prop_map(|(n, p_limit, p_market, p_cancel, trade_vol, mu_milli, sigma_milli)| AgentSpec::Noise { n, p_limit, p_market, p_cancel, trade_vol, mu_milli, sigma_milli }).boxed(),
-        _ => (n, prob_code(), vol, 1u32..=1000, 0u32..=100_000, 0u32..=5_000, 0u32..=3_000, mu, sigma)
+        _ => (n, prob_code(), vol, 1u32..=1000, (0u32..=100_000, 0u32..8), (0u32..=5_000, 0u32..8), 0u32..=3_000, mu, sigma)
+            .prop_map(|(n, p_cancel, trade_vol, decay_milli, (demand_milli, ds), (scale_milli, ss), ratio_milli, mu_milli, sigma_milli)| (n, p_cancel, trade_vol, decay_milli, demand_milli | ((ds == 0) as u32) << 31, scale_milli | ((ss == 0) as u32) << 31, ratio_milli, mu_milli, sigma_milli))
             .prop_map(|(n, p_cancel, trade_vol, decay_milli, demand_milli, scale_milli, ratio_milli, mu_milli, sigma_milli)| AgentSpec::Momentum { n, p_cancel, trade_vol, decay_milli, demand_milli, scale_milli, ratio_milli, mu_milli, sigma_milli })
             .boxed(),
     }
@@ -638,7 +651,7 @@ pub fn parts_c16(tier: Tier) -> (Vec<Part<Case>>, String) {
     }
     (
         v,
-        "A case is one agent object (random / noise / momentum; single-asset on Env or multi-asset on MarketEnv<2,10>) with generated parameters (counts 0..50 and, in 5 % of the cases, up to 300 incl. 63..65, 127..129, 255..257 with fewer rounds; tick 1..10 shared with the environment, probabilities from {0, (0,1), 1, >1}, log-normal mu in [-2,6], sigma in [0,12] incl. the documentation's 10, volumes 1..10^4), a starting book (empty / one-sided / two-sided), 1..200 update+step rounds driven by the harness, occasional harness quotes moving the touch, and a generator (Xoroshiro seeds incl. boundary seeds, or a scripted RngCore replaying generated words such as 0 and MAX before continuing with Xoroshiro). After each update every newly created order is checked (status New, agent's trader id, configured volume or range, on the grid, buy <= observed mid <= sell, random agents inside their tick range, at most one live order per trader, probability 0 => nothing, >= 1 => exactly once per trader); after the following step every order that became Cancelled must be the agent's own and have been Active when the agent looked, and p_cancel in {0, >=1} must be exact; a panic anywhere in the agent or environment is a violation. Non-trivial: >= 20 emitted instructions of >= 2 kinds on a two-sided book."
+        "A case is one agent object (random / noise / momentum; single-asset on Env or multi-asset on MarketEnv<2,10>) with generated parameters (counts 0..50 and, in 5 % of the cases, up to 300 incl. 63..65, 127..129, 255..257 with fewer rounds; tick 1..10 shared with the environment, probabilities from {0, (0,1), 1, >1}, log-normal mu in [-2,6], sigma in [0,12] incl. the documentation's 10, volumes 1..10^4 and, in 6 % of the cases, volume ranges starting at 0 / a configured volume of 0), a starting book (empty / one-sided / two-sided), 1..200 update+step rounds driven by the harness, occasional harness quotes moving the touch, and a generator (Xoroshiro seeds incl. boundary seeds, or a scripted RngCore replaying generated words such as 0 and MAX before continuing with Xoroshiro). After each update every newly created order is checked (status New, agent's trader id, configured volume or range, on the grid, buy <= observed mid <= sell, random agents inside their tick range, at most one live order per trader, probability 0 => nothing, >= 1 => exactly once per trader); after the following step every order that became Cancelled must be the agent's own and have been Active when the agent looked, and p_cancel in {0, >=1} must be exact; a panic anywhere in the agent or environment is a violation. Non-trivial: >= 20 emitted instructions of >= 2 kinds on a two-sided book."
             .to_string(),
     )
 }
@@ -687,12 +700,16 @@ fn mom_run(c: &MomCase, mirror: bool) -> Vec<UpdateRec> {
     let mut quotes: Vec<(usize, usize)> = vec![];
     let mut out = vec![];
     for (k, off) in c.path.iter().enumerate() {
-        let p = ((c.level_k as i64 + *off as i64).max(4) as u32) * tick;
+        // (64-bit arithmetic: the centre level may lie anywhere in the price range, also above 2^31)
+        let tick64 = tick as u64;
+        let top = (u32::MAX as u64 - 1) / tick64 * tick64; // largest limit price on the grid below 2^32-1
+        let p = ((c.level_k as i64 + *off as i64).max(4) as u64) * tick64;
         let wide = c.widen.get(k).cloned().unwrap_or(false);
-        let (qb, qa) = (p - tick, p + tick + if wide { tick } else { 0 });
+        let (qb, qa) = ((p - tick64).min(top - 2 * tick64), (p + tick64 + if wide { tick64 } else { 0 }).min(top));
         // the mirrored run mirrors the quotes themselves about L
-        let two_l = 2 * c.level_k * tick;
-        let (qb, qa) = if mirror { (two_l.saturating_sub(qa).max(tick), two_l.saturating_sub(qb).max(2 * tick)) } else { (qb, qa) };
+        let two_l = 2 * c.level_k as u64 * tick64;
+        let (qb, qa) = if mirror { (two_l.saturating_sub(qa).max(tick64).min(top - 2 * tick64), two_l.saturating_sub(qb).max(2 * tick64).min(top)) } else { (qb, qa) };
+        let (qb, qa) = (qb as u32, qa as u32);
         // replace the harness quotes: cancel the old ones, then place the new ones around p
         {
             let e = env.dynenv_mut();
@@ -733,7 +750,7 @@ fn run_mom(c: &MomCase) -> (Vec<(&'static str, u64)>, bool, Result<(), Failure>)
     let r2 = mom_run(c, true);
     let two_l = 2.0 * (c.level_k as f64) * (c.tick as f64);
     let n = c.n as f64;
-    let (decay, demand, scale, ratio) = (c.decay_milli as f64 / 1000.0, c.demand_milli as f64 / 1000.0, c.scale_milli as f64 / 1000.0, c.ratio_milli as f64 / 1000.0);
+    let (decay, demand, scale, ratio) = (c.decay_milli as f64 / 1000.0, signed_milli(c.demand_milli), signed_milli(c.scale_milli), c.ratio_milli as f64 / 1000.0);
     let mut m = 0.0f64;
     let mut last: Option<f64> = None;
     let (mut sat_up, mut sat_down, mut buys, mut sells, mut compared, mut diverged) = (0u64, 0u64, 0u64, 0u64, 0u64, 0u64);
@@ -797,29 +814,37 @@ fn run_mom(c: &MomCase) -> (Vec<(&'static str, u64)>, bool, Result<(), Failure>)
                 // Limit prices mirror as 2L - p, except where the price range itself is not symmetric:
                 // a buy price clamped to 0 corresponds to a sell price at or beyond 2L. Such prices are
                 // normalised to one marker on both sides (the property speaks of sides and sizes).
-                const CLAMPED: u32 = u32::MAX - 1;
-                let norm = |bid: bool, market: bool, price: u32| -> u32 {
+                // The same at the top of the range: a sell price clamped to the highest grid price T corresponds to
+                // a buy price at or below 2L - T.
+                // (markers are negative numbers: they cannot collide with a genuine price)
+                const CLAMPED: i64 = -1;
+                const CLAMPED_TOP: i64 = -2;
+                const MARKET_BUY: i64 = -10;
+                const MARKET_SELL: i64 = -11;
+                let t_top = (u32::MAX - u32::MAX % c.tick) as f64;
+                // Some(marker) for market orders and clamped prices
+                let norm = |bid: bool, market: bool, price: u32| -> Option<i64> {
                     if market {
-                        return if bid { u32::MAX } else { 0 };
+                        return Some(if bid { MARKET_BUY } else { MARKET_SELL });
                     }
                     if (bid && price == 0) || (!bid && price as f64 >= two_l) {
-                        CLAMPED
+                        Some(CLAMPED)
+                    } else if (!bid && price as f64 >= t_top) || (bid && price as f64 <= two_l - t_top) {
+                        Some(CLAMPED_TOP)
                     } else {
-                        price
+                        None
                     }
                 };
-                let mut x: Vec<(bool, bool, u32, u32, u32)> = u.new.iter().map(|o| (o.0, o.1, norm(o.0, o.1, o.2), o.3, o.4)).collect();
-                let mut y: Vec<(bool, bool, u32, u32, u32)> = v
+                let mut x: Vec<(bool, bool, i64, u32, u32)> = u.new.iter().map(|o| (o.0, o.1, norm(o.0, o.1, o.2).unwrap_or(o.2 as i64), o.3, o.4)).collect();
+                let mut y: Vec<(bool, bool, i64, u32, u32)> = v
                     .new
                     .iter()
                     .map(|o| {
-                        let p = norm(o.0, o.1, o.2);
-                        let mirrored = if o.1 {
-                            if o.0 { 0 } else { u32::MAX }
-                        } else if p == CLAMPED {
-                            CLAMPED
-                        } else {
-                            (two_l as i64 - o.2 as i64).clamp(0, u32::MAX as i64) as u32
+                        let mirrored = match norm(o.0, o.1, o.2) {
+                            Some(MARKET_BUY) => MARKET_SELL,
+                            Some(MARKET_SELL) => MARKET_BUY,
+                            Some(marker) => marker,
+                            None => two_l as i64 - o.2 as i64,
                         };
                         (!o.0, o.1, mirrored, o.3, o.4)
                     })
@@ -860,11 +885,15 @@ pub fn mom_case_strategy() -> BoxedStrategy<MomCase> {
         }),
     ];
     let widen = prop_oneof![1 => Just(vec![]), 2 => proptest::collection::vec(any::<bool>(), 0..50)];
-    (any::<bool>(), 0u8..2, 1u32..=10, 500u32..100_000, (path, widen), prop_oneof![4 => 1u16..=8, 1 => 9u16..=20], prob_code(), 1u32..=100, (1u32..=1000, prop_oneof![2 => 0u32..5_000, 3 => 5_000u32..200_000], 1u32..=5_000, prop_oneof![1 => Just(0u32), 2 => 0u32..3_000], -2000i32..=3000, 0u32..=3_000), any::<u64>())
+    // centre level: the usual price levels, anywhere in the price range, or at its very top (in ticks; cut to the range below)
+    let level = prop_oneof![4 => (500u32..100_000).boxed(), 2 => (500u32..=u32::MAX).boxed(), 1 => (0u32..5_000).prop_map(|d| u32::MAX - d).boxed()];
+    (any::<bool>(), 0u8..2, 1u32..=10, level, (path, widen), prop_oneof![4 => 1u16..=8, 1 => 9u16..=20], prob_code(), 1u32..=100, (1u32..=1000, (prop_oneof![2 => 0u32..5_000, 3 => 5_000u32..200_000], 0u32..8).prop_map(|(d, s)| d | ((s == 0) as u32) << 31), (1u32..=5_000, 0u32..8).prop_map(|(d, s)| d | ((s == 0) as u32) << 31), prop_oneof![1 => Just(0u32), 2 => 0u32..3_000], -2000i32..=3000, 0u32..=3_000), any::<u64>())
         .prop_map(|(market, asset, tick, level_k, (path, widen), n, p_cancel, trade_vol, (decay_milli, demand_milli, scale_milli, ratio_milli, mu_milli, sigma_milli), seed)| {
             // long trends: no cancellations in half of them, so that resting orders accumulate
             let p_cancel = if path.len() > 64 && seed % 2 == 0 { 0 } else { p_cancel };
             let n = if path.len() > 64 { n.min(4) } else { n };
+            // keep the whole path, the quotes around it and their mirror images inside the price range
+            let level_k = level_k.min((u32::MAX - 1) / tick - 1_000);
             MomCase { market, asset, tick, level_k, path, widen, n, p_cancel, trade_vol, decay_milli, demand_milli, scale_milli, ratio_milli, mu_milli, sigma_milli, seed }
         })
         .boxed()
